@@ -94,4 +94,11 @@ CHECKS = {
         note="Bounds: 2 streams x <= 3 packs, skew in {0,+1ms,+1s,-0.5s}, <= 2 deviations (3 thorough). The overtake defect (a pack computed earlier but enqueued later) is a recorded known finding; resume from persisted checkpoints is checked in the C05 fullstack harness.",
         parts=[part("time", "core", "reader", "TestVerifC03Time", shards=(12, 16), budget=(150, 900), gomaxprocs=1)],
     ),
+    "C04": dict(
+        level="exploration", engine="sched",
+        technique="stateless DFS over goroutine schedules (deviation-bounded) of the real channel manager and its barriers for every drop / stop / restart scenario",
+        text="Drop-collection and drop-partition scripts over 1-3 shards, partition registration racing stream registration, stop with and without a half-completed drop, and restarts with objects already dropped upstream are executed on the real channel manager under every schedule within the deviation bound; the drop requests observed on the event channel are counted, attributed and placed in time against the per-shard delivery progress.",
+        note="Bounds: <= 2 shards (3 thorough), <= 2 deviations (3 thorough; 1 for the heaviest scenarios). After a drop the scripts address the dropped object no more (a source never does).",
+        parts=[part("drop", "core", "reader", "TestVerifC04Drop", shards=(12, 16), budget=(150, 900), gomaxprocs=1)],
+    ),
 }
